@@ -88,6 +88,10 @@ func c12(w *core.World, r *core.Report) {
 	ruleReplayStartOffset(w, r)
 	r.Rule("R12.10", "an array is read to its announced length: the element loop is bounded by the header's count itself", 1)
 	ruleArrayReadsAnnouncedCount(w, r)
+	r.Rule("R12.11", "no bulk length the protocol allows is refused: a path that rejects a bulk string by its announced length puts the length outside 0 … 512 MiB (proto-max-bulk-len)", 1)
+	ruleBulkLengthBound(w, r)
+	r.Rule("R12.12", "every decoder that is handed out counts from zero: a fresh allocation, or a recycled object whose byte count is reset before it is used (or before it is put back into its pool)", 2)
+	ruleDecoderStartsAtZero(w, r)
 }
 
 func ruleReadOffsetPairing(w *core.World, r *core.Report, f *ssa.Function) {
